@@ -95,4 +95,11 @@ SPECS = {
             "real": ["prom.Metrics (NewMetrics, Register, Observe)", "prometheus client_golang registry, counters, histograms"], "stub": ["observers and scraper (harness goroutines), scheduler (controller)"],
             "not_simulated": ["the HTTP exposition handler (needs a socket); processAttack feeding Observe during an attack: cmd engine"],
             "assumptions": ATTACK_ASSUME + ["byte totals are kept below 2^53 so that float64 sums are exact; sample sums compared within 1e-9 relative"]},
+    "C18": {"jobs": [{"engine": "attack", "scenario": "dial-C18", "race": False, "quick": 8000, "thorough": 800000},
+                     {"engine": "attack", "scenario": "dial-C18", "race": True, "quick": 1200, "thorough": 100000}],
+            "rule": "one evaluation = 1..8 (1 in 25 runs: 8..64) dial workers calling the dial function that DNSCaching and/or ConnectTo installed on the transport (modes: dns, connect-to, dns then connect-to, connect-to then dns; neutral options around them), 1..60 dials (1 run in 6: 200 x |set| dials), over an in-memory DNS server (1..8 addresses, v4 only / v6 only / mixed, optionally changing at a refresh when ttl > 0) and a recording innermost dial that parks, succeeds or refuses (0/5/30%); 0..3 breakpoints armed inside the closures; fake time advanced between dials; non-trivial = overlapping dials, a breakpoint hit, a refusal or a time advance; distinct = distinct event-log hashes",
+            "real": ["DNSCaching and ConnectTo closures, firstOfEachIPFamily, the refresh goroutine", "rs/dnscache, singleflight, Go's pure-Go resolver (over a net.Pipe to the in-memory DNS server)"],
+            "stub": ["DNS server (miekg/dns responder on net.Pipe)", "innermost dial function (recording, parking)", "http.Transport itself is bypassed: the installed DialContext is called directly"],
+            "not_simulated": ["option subsets that make the real net.Dialer the innermost dial function (LocalAddr, KeepAlive(false), UnixSocket after the client), TLS/HTTP2/proxy options: they need real sockets", "internal/resolver.address rotation (its dial uses a real net.Dialer)"],
+            "assumptions": ATTACK_ASSUME + ["Go's resolver and dnscache contain unmediated selects: oracles are over sets and counts of dials, not over their order", "when the DNS answer changes, dials returning after the change may use the old or the new set"]},
 }
